@@ -107,6 +107,23 @@ func VxH12() {
 		r1.InPort("in").From(t1.Out())
 		r2 := vxNewTagReader(wf, "r2")
 		r2.InPort("in").From(t2.Out())
+	case 6: // fan-in: several senders connected to one parameter in-port and to one file in-port
+		ps1 := NewParamSource(wf, "ps1", "a", "b")
+		ps2 := NewParamSource(wf, "ps2", "c")
+		ps3 := NewParamSource(wf, "ps3", "d")
+		w := wf.NewProc("w", "vcmd w:{o:out} # {p:val}")
+		w.SetOut("out", "{p:val}.txt")
+		w.InParam("val").From(ps1.Out())
+		w.InParam("val").From(ps2.Out())
+		w.InParam("val").From(ps3.Out())
+		s1 := NewFileSource(wf, "s1", "in1.txt")
+		s2 := NewFileSource(wf, "s2", "in2.txt")
+		s3 := NewFileSource(wf, "s3", "in3.txt")
+		c := wf.NewProc("c", "vcmd r:{i:in} w:{o:out}")
+		c.SetOut("out", "{i:in}.c")
+		c.In("in").From(s1.Out())
+		c.In("in").From(s2.Out())
+		c.In("in").From(s3.Out())
 	}
 	vxPreemptBudget(vxGet("preempt"))
 	vxRaceLog(true)
